@@ -214,6 +214,7 @@ func c03(r *lp.Run) {
 	rng := r.Rng.Fork(3)
 	c03Validators(r, rng)
 	c03BoundMerge(r, rng.Fork(33))
+	c03CountMerge(r, rng.Fork(34))
 
 	scratch := os.Getenv("VERIF_SCRATCH")
 	if scratch == "" {
